@@ -47,7 +47,7 @@ def ref(kind, l, r):
 
 
 def shards(tier, seed):
-    n = 20000 if tier == "quick" else 2000000
+    n = 20000 if tier == "quick" else 8000000
     k = 4 if tier == "quick" else 16
     out = [dict(shard=0, seed=seed, mode="exhaustive", dom=0), dict(shard=1, seed=seed, mode="exhaustive", dom=1),
            dict(shard=2, seed=seed, mode="exhaustive", dom=2)]
